@@ -131,7 +131,16 @@ type c23xScaled struct {
 	scale int
 }
 
-func (b *c23xScaled) ValueSize() int { return b.Batch.ValueSize() * b.scale }
+func (b *c23xScaled) ValueSize() int {
+	v := b.Batch.ValueSize() * b.scale
+	switch { // what batched.MayFlush compares with IdealBatchSize
+	case v == kvdb.IdealBatchSize:
+		vu.Stat("sweep_valuesize_eq_ideal")
+	case v > kvdb.IdealBatchSize:
+		vu.Stat("sweep_valuesize_gt_ideal")
+	}
+	return v
+}
 
 // test double: fails on keys with a prefix
 type c23xErrStore struct {
@@ -235,6 +244,9 @@ func c23xRun(in []string) []string {
 			b := batched.Wrap(cur)
 			objs[i], cur = b, b
 		case "S":
+			if f[1] == "-" {
+				vu.Stat("sweep_skipkeys_empty_prefix")
+			}
 			if i%2 == 0 {
 				cur = skipkeys.Wrap(cur, vu.UnHex(f[1]))
 			} else { // through the producer wrapper
@@ -255,6 +267,9 @@ func c23xRun(in []string) []string {
 		case "F":
 			fl := fallible.Wrap(cur)
 			n, _ := strconv.Atoi(f[1])
+			if n <= 0 {
+				vu.Stat("sweep_fallible_counter_le_0")
+			}
 			fl.SetWriteCount(n)
 			objs[i], cur = fl, fl
 		case "C":
@@ -451,7 +466,8 @@ var c23xVals = []string{"-", "31", "3232", "333333", "00ff"}
 func c23xGen(r *rand.Rand, n int, tier string, emit func(...string)) {
 	pick := func(l []string) string { return l[r.Intn(len(l))] }
 	for i := 0; i < n; i++ {
-		scale := []int{1, 15000, 30000, 60000}[r.Intn(4)]
+		// 1: never flushes by size; mid values; exact boundaries n*scale == IdealBatchSize for n = 1, 2, 4, 5, 8
+		scale := []int{1, 15000, 30000, 60000, 102400, 51200, 25600, 20480, 12800}[r.Intn(9)]
 		depth := 1 + r.Intn(4)
 		// 40% of the cases stay inside the domain of the write theorems (batched / skipkeys / nokeyiserr /
 		// cached / readonly over the memorydb double, no batch writes, Drop, layer Write/Reset, re-open):
@@ -487,7 +503,7 @@ func c23xGen(r *rand.Rand, n int, tier string, emit func(...string)) {
 			case 5:
 				layers = append(layers, "E:"+pick([]string{"1", "2", "3", "1.3", "2.3", "4", "1.2.3.4"}))
 			case 6:
-				layers = append(layers, "F:"+strconv.Itoa(r.Intn(6)))
+				layers = append(layers, "F:"+strconv.Itoa(r.Intn(8)-2)) // counters -2 .. 5
 				nF++
 			case 7:
 				layers = append(layers, "X:"+pick([]string{"ee", "62", "6b"})+":"+pick([]string{"3", "4"}))
@@ -563,7 +579,7 @@ func c23xGen(r *rand.Rand, n int, tier string, emit func(...string)) {
 				case 5:
 					in = append(in, "GC", strconv.Itoa(r.Intn(depth)))
 				default:
-					in = append(in, "SC", strconv.Itoa(r.Intn(depth)), strconv.Itoa(r.Intn(5)))
+					in = append(in, "SC", strconv.Itoa(r.Intn(depth)), strconv.Itoa(r.Intn(7)-2))
 				}
 			}
 		}
